@@ -213,10 +213,12 @@ void harness(void)
 
     /* interesting paths (which ones exist depends on the geometry: W_* flags from the driver) */
     int j0 = (n > 0) ? reg_at(d, in.addr) : -1;
-#if !defined(GA_N) || defined(W_MULTI)
+#if !defined(GA_N) || defined(W_INSIDE2)
     VP_WITNESS(r.code == REG_ACCESS_SUCCESS && j0 >= 0 && d->e[j0].address < in.addr &&
                    d->e[j0].check == REGV_TYPE_RANGE && n >= 2,
                "C02.success-starting-inside-range-register.reach");
+#endif
+#if !defined(GA_N) || defined(W_MULTI)
     VP_WITNESS(r.code == REG_ACCESS_RANGE && j0 >= 0 && d->e[j0].address < in.addr, "C02.range-partial-first.reach");
     VP_WITNESS(r.code == REG_ACCESS_INVALID && has_inv, "C02.invalid-float.reach");
 #endif
